@@ -4,7 +4,8 @@
 //! alike, and serve what their replication state says.
 use rand::seq::SliceRandom;
 use rand::Rng as _;
-use redis_sim::production::{ReplicatedShardActor, ReplicatedShardHandle};
+use redis_sim::production::{ReplicatedShardActor, ReplicatedShardHandle, ReplicatedShardedState};
+use redis_sim::replication::ReplicationConfig;
 use redis_sim::redis::{Command, RespValue, SDS};
 use redis_sim::replication::lattice::ReplicaId;
 use redis_sim::replication::state::{ReplicatedValue, ReplicationDelta};
@@ -55,8 +56,57 @@ enum Ev {
     Deliver(usize, usize), // (target node, index into the log)
 }
 
-fn gen_cmd(rng: &mut Rng, mixed: bool, with_opts: bool, with_ex: bool) -> Cmd {
-    let kind_roll = rng.gen_range(0..10);
+/// A cluster member: either one shard actor, or a whole production node (16 shard actors behind
+/// ReplicatedShardedState, deltas applied in batches through apply_remote_deltas).
+enum NodeH {
+    Actor(ReplicatedShardHandle),
+    Node(ReplicatedShardedState),
+}
+impl NodeH {
+    async fn exec(&self, c: Command) -> (RespValue, Vec<(String, ReplicatedValue)>) {
+        match self {
+            NodeH::Actor(h) => {
+                let (r, d) = h.execute(c).await;
+                (r, d.into_iter().map(|d| (d.key.clone(), d.value.clone())).collect())
+            }
+            NodeH::Node(n) => {
+                let r = n.execute(c).await;
+                let ds = n.collect_pending_deltas().await;
+                (r, ds.into_iter().map(|d| (d.key.clone(), d.value.clone())).collect())
+            }
+        }
+    }
+    /// deliver a batch (in order); returns after the node has processed it
+    async fn deliver(&self, batch: Vec<ReplicationDelta>) {
+        match self {
+            NodeH::Actor(h) => {
+                for d in batch { h.apply_remote_delta(d); }
+                let _ = h.get_snapshot().await;
+            }
+            NodeH::Node(n) => {
+                n.apply_remote_deltas(batch);
+                let _ = n.snapshot_state().await;
+            }
+        }
+    }
+    async fn snapshot(&self) -> std::collections::HashMap<String, ReplicatedValue> {
+        match self { NodeH::Actor(h) => h.get_snapshot().await, NodeH::Node(n) => n.snapshot_state().await }
+    }
+    async fn read(&self, c: Command) -> RespValue {
+        match self { NodeH::Actor(h) => h.execute(c).await.0, NodeH::Node(n) => n.execute(c).await }
+    }
+    fn alive(&self) -> bool {
+        match self { NodeH::Actor(h) => h.is_running(), NodeH::Node(_) => true }
+    }
+    async fn stop(&self) {
+        if let NodeH::Actor(h) = self { if h.is_running() { h.shutdown().await; } }
+    }
+}
+
+fn gen_cmd(rng: &mut Rng, mixed: bool, with_opts: bool, with_ex: bool, only_kind: Option<bool>) -> Cmd {
+    // only_kind = Some(true): string key only, Some(false): hash key only (node-level histories use
+    // one key: a production node has 16 shards with independent clocks, the model one shard)
+    let kind_roll = match only_kind { Some(true) => 0, Some(false) => 9, None => rng.gen_range(0..10) };
     // key "s" holds strings, key "h" hashes; key "m" (only in mixed histories) gets both kinds
     let stringish = kind_roll < 5;
     let key = if mixed && rng.gen_bool(0.5) { "m" } else if stringish { "s" } else { "h" }.to_string();
@@ -101,10 +151,10 @@ fn read_term(r: &RespValue) -> String {
     }
 }
 /// what a client reads for key k at node h: GET, falling back to HGETALL on WRONGTYPE
-async fn read_key(h: &ReplicatedShardHandle, k: &str) -> String {
-    let g = h.execute(Command::Get(k.to_string())).await.0;
+async fn read_key(h: &NodeH, k: &str) -> String {
+    let g = h.read(Command::Get(k.to_string())).await;
     match g {
-        RespValue::Error(_) => read_term(&h.execute(Command::HGetAll(k.to_string())).await.0),
+        RespValue::Error(_) => read_term(&h.read(Command::HGetAll(k.to_string())).await),
         other => read_term(&other),
     }
 }
@@ -124,7 +174,7 @@ fn main() {
     let args = &Args::parse(&a[1..]);
     std::panic::set_hook(Box::new(|_| {}));
     let mut out = Out::new(&args.out, "C06", args.shards, HEADER);
-    out.nontrivial_rule = "cluster histories on 3 real ReplicatedShardActors: 4-14 client commands (SET [NX|XX] [EX], DEL, APPEND, HSET, HDEL) at random nodes on keys s (strings), h (hashes) and, in mixed histories, m (both kinds), interleaved with deliveries of already emitted deltas in random order with duplicates and drops, followed by redelivery of every delta to every node in random order; Coq cases for histories without EX; non-trivial = at least two nodes wrote the same key; distinct by event text".into();
+    out.nontrivial_rule = "cluster histories on 3 real members (single ReplicatedShardActors, or in about a third of the kind-stable histories whole production nodes = ReplicatedShardedState with 16 shard actors, deltas collected with collect_pending_deltas and delivered in batches through apply_remote_deltas): 4-14 client commands (SET [NX|XX] [EX], DEL, APPEND, HSET, HDEL) at random nodes on keys s (strings), h (hashes) and, in mixed histories, m (both kinds), interleaved with deliveries of already emitted deltas in random order with duplicates and drops, followed by redelivery of every delta to every node in random order; Coq cases for histories without EX; non-trivial = at least two nodes wrote the same key; distinct by event text".into();
     let rt = tokio::runtime::Builder::new_current_thread().enable_all().build().unwrap();
     let range: Vec<u64> = match args.only { Some(i) => vec![i], None => (0..args.n).collect() };
     for i in range {
@@ -132,6 +182,9 @@ fn main() {
         let mixed = rng.gen_bool(0.2);
         let with_opts = rng.gen_bool(0.4);
         let with_ex = rng.gen_bool(0.15);
+        // production nodes only in kind-stable histories (a kind change can kill a shard actor in debug builds)
+        let node_level = !mixed && rng.gen_bool(0.35);
+        let only_kind = if node_level { Some(rng.gen_bool(0.4)) } else { None };
         let ncmds = rng.gen_range(4..15);
         let mut evs: Vec<Ev> = Vec::new();
         let mut log: Vec<(usize, String, ReplicatedValue)> = Vec::new();
@@ -141,47 +194,64 @@ fn main() {
         let mut cmds: Vec<(usize, Cmd, String)> = Vec::new();
         let keys_used: BTreeSet<String>;
         rt.block_on(async {
-            let hs: Vec<ReplicatedShardHandle> = (1..=3u64).map(|r| ReplicatedShardActor::spawn(ReplicaId(r), ConsistencyLevel::Eventual, 0)).collect();
+            let hs: Vec<NodeH> = (1..=3u64).map(|r| if node_level {
+                    let mut cfg = ReplicationConfig::default();
+                    cfg.replica_id = r;
+                    NodeH::Node(ReplicatedShardedState::new(cfg))
+                } else {
+                    NodeH::Actor(ReplicatedShardActor::spawn(ReplicaId(r), ConsistencyLevel::Eventual, 0))
+                }).collect();
+            let mk = |log: &Vec<(usize, String, ReplicatedValue)>, li: usize| ReplicationDelta::new(log[li].1.clone(), log[li].2.clone(), ReplicaId(log[li].0 as u64 + 1));
             let mut issued = 0;
             while issued < ncmds {
                 if !log.is_empty() && rng.gen_bool(0.4) {
-                    let li = rng.gen_range(0..log.len());
+                    // a batch of 1-3 already emitted deltas (possibly several for one key) to one node
                     let t = rng.gen_range(0..3usize);
-                    if t != log[li].0 {
-                        hs[t].apply_remote_delta(ReplicationDelta::new(log[li].1.clone(), log[li].2.clone(), ReplicaId(log[li].0 as u64 + 1)));
-                        let _ = hs[t].get_snapshot().await; // barrier: the mailbox is FIFO
-                        evs.push(Ev::Deliver(t, li));
+                    let bn = if node_level { rng.gen_range(1..4) } else { 1 };
+                    let mut batch = Vec::new();
+                    for _ in 0..bn {
+                        let li = rng.gen_range(0..log.len());
+                        if t != log[li].0 { batch.push(mk(&log, li)); evs.push(Ev::Deliver(t, li)); }
                     }
+                    if !batch.is_empty() { hs[t].deliver(batch).await; }
                 } else {
                     let n = rng.gen_range(0..3usize);
-                    let c = gen_cmd(&mut rng, mixed, with_opts, with_ex);
-                    let (reply, d) = hs[n].execute(c.to_command()).await;
+                    let c = gen_cmd(&mut rng, mixed, with_opts, with_ex, only_kind);
+                    let (reply, ds) = hs[n].exec(c.to_command()).await;
                     cmds.push((n, c.clone(), format!("{:?}", reply)));
                     evs.push(Ev::Client(n, c.clone()));
-                    if let Some(d) = d { log.push((n, d.key.clone(), d.value.clone())); }
+                    for (k, v) in ds { log.push((n, k, v)); }
                     issued += 1;
                 }
-                if hs.iter().any(|h| !h.is_running()) { died = true; break; }
+                if hs.iter().any(|h| !h.alive()) { died = true; break; }
             }
             if !died {
-                // quiescence: every delta reaches every other node (random order, some twice)
+                // quiescence: every delta reaches every other node (random order, some twice);
+                // node-level members receive theirs in batches
                 let mut all: Vec<(usize, usize)> = Vec::new();
                 for li in 0..log.len() { for t in 0..3usize { if t != log[li].0 { all.push((t, li)); if rng.gen_bool(0.2) { all.push((t, li)); } } } }
                 all.shuffle(&mut rng);
-                for (t, li) in all {
-                    hs[t].apply_remote_delta(ReplicationDelta::new(log[li].1.clone(), log[li].2.clone(), ReplicaId(log[li].0 as u64 + 1)));
-                    evs.push(Ev::Deliver(t, li));
+                for t in 0..3usize {
+                    let mine: Vec<usize> = all.iter().filter(|(tt, _)| *tt == t).map(|(_, li)| *li).collect();
+                    let mut i0 = 0;
+                    while i0 < mine.len() {
+                        let bn = if node_level { rng.gen_range(1..6) } else { 1 };
+                        let chunk: Vec<usize> = mine[i0..(i0 + bn).min(mine.len())].to_vec();
+                        i0 += chunk.len();
+                        for li in &chunk { evs.push(Ev::Deliver(t, *li)); }
+                        hs[t].deliver(chunk.iter().map(|li| mk(&log, *li)).collect()).await;
+                    }
                 }
                 for h in hs.iter() {
-                    let snap = h.get_snapshot().await;
+                    let snap = h.snapshot().await;
                     let mut reads = BTreeMap::new();
                     for k in ["s", "h", "m"] { reads.insert(k.to_string(), read_key(h, k).await); }
                     final_reads.push(reads);
                     final_state.push(snap.into_iter().collect());
                 }
-                if hs.iter().any(|h| !h.is_running()) { died = true; }
+                if hs.iter().any(|h| !h.alive()) { died = true; }
             }
-            for h in hs.iter() { if h.is_running() { h.shutdown().await; } }
+            for h in hs.iter() { h.stop().await; }
         });
         keys_used = cmds.iter().map(|(_, c, _)| c.key().to_string()).collect();
         // ---- history features that place a key in a known-finding class
@@ -203,6 +273,7 @@ fn main() {
         let show = json!({"commands": cmds.iter().map(|(n, c, r)| format!("node{} {:?} -> {}", n + 1, c, r)).collect::<Vec<_>>(), "deliveries": evs.iter().filter(|e| matches!(e, Ev::Deliver(..))).count()});
         for (_, c, _) in &cmds { out.count(match c { Cmd::Set(_, _, true, _, _) => "cmd:SET NX", Cmd::Set(_, _, _, true, _) => "cmd:SET XX", Cmd::Set(_, _, _, _, Some(_)) => "cmd:SET EX", Cmd::Set(..) => "cmd:SET", Cmd::Del(_) => "cmd:DEL", Cmd::Append(..) => "cmd:APPEND", Cmd::HSet(..) => "cmd:HSET", Cmd::HDel(..) => "cmd:HDEL" }); }
         out.count(if mixed { "history:mixed-kinds" } else { "history:kind-stable" });
+        out.count(if node_level { "member:ReplicatedShardedState(16 shards, batched deliveries)" } else { "member:ReplicatedShardActor" });
         if died {
             // a remote hash delta over a local string trips a debug assertion in the glue and kills the actor
             out.count("actor-died");
